@@ -550,6 +550,10 @@ class Machine:
         d = md if self.ch.chance("pix_at_maxdepth", 1, 2) or md == 1 else max(1, md - 1 - self.ch.draw("pix_coarser", min(3, md - 1)))
         n = 1 + self.ch.draw("npixels", 12)
         base = self.ch.draw("pix_base", npix(d))
+        if self.ch.chance("pixel_zero", 1, 5):
+            base = 0          # pixel number 0 (falsy, first of its quad) deserves to be met often
+            if self.ch.chance("pixel_zero_alone", 1, 2):
+                n = 1
         run = self.ch.chance("pix_run", 1, 2)
         pix = [(base + (i if run else self.ch.draw("pix_off", 64))) % npix(d) for i in range(n)]
         return pix, d
